@@ -171,6 +171,21 @@ class Check:
                     ok = False
         return ok
 
+    def props_modules(self, pid=None):
+        """Property modules present for this property: Props/Cxx.lean and
+        Props/Cxx/*.lean."""
+        pid = pid or self.pid
+        out = []
+        base = os.path.join(LEAN, 'LbzVerif', 'Props')
+        if os.path.exists(os.path.join(base, pid + '.lean')):
+            out.append('LbzVerif.Props.' + pid)
+        d = os.path.join(base, pid)
+        if os.path.isdir(d):
+            for fn in sorted(os.listdir(d)):
+                if fn.endswith('.lean'):
+                    out.append('LbzVerif.Props.%s.%s' % (pid, fn[:-5]))
+        return out
+
     def grep_forbidden(self):
         bad = []
         for root, _, files in os.walk(os.path.join(LEAN, 'LbzVerif')):
@@ -201,8 +216,8 @@ run_cmd do
       if let .thmInfo _ := ci then
         if !n.isInternal then names := names.push n
   for n in names.qsort (fun a b => a.toString < b.toString) do
-    let (_, s) := ((CollectAxioms.collect n).run env).run {}
-    IO.println s!"THM {n} AXIOMS {s.axioms.toList}"
+    let axs ← Lean.collectAxioms n
+    IO.println s!"THM {n} AXIOMS {axs.toList}"
 ''' % {'m': module}
         p = os.path.join(self.tmp, 'audit_%s.lean' % module.replace('.', '_'))
         with open(p, 'w') as f:
